@@ -892,7 +892,13 @@ class PDFDocument:
                         obj = self._getobj_objstm(stream, index, objid)
                     else:
                         obj = self._getobj_parse(index, objid)
-                        if self.decipher:
+                        if (
+                            isinstance(obj, PDFStream)
+                            and obj.get("Type") is LITERAL_XREF
+                        ):
+                            # cross-reference streams are never encrypted
+                            obj.decipher = None
+                        elif self.decipher:
                             obj = decipher_all(self.decipher, objid, genno, obj)
 
                     if isinstance(obj, PDFStream):
